@@ -59,7 +59,9 @@ func drawL0Config(rt *rapid.T, kind sim.Kind) l0Config {
 	if thorough() {
 		maxR = 6
 	}
-	return l0Config{
+	cfg := l0Config{
+		Nested:      kind == sim.Document && rapid.IntRange(0, 2).Draw(rt, "nestedfocus") == 0,
+		WideFirst:   (kind == sim.Document || kind == sim.List) && rapid.IntRange(0, 3).Draw(rt, "widefirst") == 0,
 		Kind:        kind,
 		Replicas:    rapid.IntRange(2, 4).Draw(rt, "replicas"),
 		MaxReplicas: maxR,
@@ -68,6 +70,10 @@ func drawL0Config(rt *rapid.T, kind sim.Kind) l0Config {
 		BigBatch:    thorough(),
 		IDSeed:      rapid.Uint64Range(1, 1<<40).Draw(rt, "idseed"),
 	}
+	if cfg.WideFirst {
+		cfg.SoloRun = rapid.IntRange(0, 25).Draw(rt, "solorun")
+	}
+	return cfg
 }
 
 func maxStepsL0() int {
